@@ -248,3 +248,24 @@ package inputrc
 //@   assigns p.keymap, p.line, p.conds, p.errs, nbind(handler), lastkeymap(handler), lastseq(handler), lastaction(handler), lastmacro(handler), nset(handler), lastsetname(handler), ndo(handler)
 //@   loop 1 invariant pconds(p) && scanner != nil && scanleft(scanner) >= 0
 //@   loop 1 decreases scanleft(scanner)
+
+// ---------------------------------------------------------------------------------------
+// Config accessors
+
+//@ func (*Config).GetString
+//@   props C12 C01 C17
+//@   terminates
+//@   requires cfg != nil
+//@   pure
+
+//@ func (*Config).GetBool
+//@   props C12 C01 C08
+//@   terminates
+//@   requires cfg != nil
+//@   pure
+
+//@ func (*Config).GetInt
+//@   props C12 C01
+//@   terminates
+//@   requires cfg != nil
+//@   pure
